@@ -210,7 +210,15 @@ def build(cfg, f=None, op=None):
     norm = norm_of(cfg["norm"])
     if cfg["strategy"] == "dimwise":
         if op is None:
-            grid = GlobalTrapezoidalGrid(a, b, boundary=True, modified_basis=False)
+            kind = cfg.get("grid", "global_trapezoidal")
+            if kind == "global_bspline":          # global basis-function grids keep per-component-grid surplusses for interpolation
+                from sparseSpACE.Grid import GlobalBSplineGrid
+                grid = GlobalBSplineGrid(a, b, boundary=True, modified_basis=False, p=int(cfg.get("p", 3)))
+            elif kind == "global_lagrange":
+                from sparseSpACE.Grid import GlobalLagrangeGrid
+                grid = GlobalLagrangeGrid(a, b, boundary=True, modified_basis=False, p=int(cfg.get("p", 2)))
+            else:
+                grid = GlobalTrapezoidalGrid(a, b, boundary=True, modified_basis=False)
             op = Integration(f, grid=grid, dim=dim, reference_solution=ref)
         eo = ErrorCalculatorSingleDimVolumeGuided()
         sa = C["dimwise"](a, b, version=cfg.get("version", 6), operation=op, norm=norm, print_level=100, log_level=100)
@@ -240,6 +248,8 @@ def build(cfg, f=None, op=None):
 def run_kwargs(cfg):
     """options of performSpatiallyAdaptiv that belong to the configuration"""
     kw = {"recalculate_frequently": True} if cfg.get("recalc") else {}
+    if cfg.get("reeval"):
+        kw["reevaluate_at_end"] = True
     if cfg.get("eval_points"):
         kw["evaluation_points"] = [tuple(float(x) for x in p) for p in cfg["eval_points"]]
     return kw
@@ -412,6 +422,33 @@ def interpolation_histories(ctx_viol, cfg, ret, log_part, n_before, n_evals, f, 
             return
 
 
+def returned_result_clause(viol, cfg, sa, ret, last_result, last_error, ref, prefix=""):
+    """the RETURNED result ([3]) is the result the last evaluation produced -- bit for bit in the ordinary case; with
+    reevaluate_at_end=True it is recomputed from scratch by evaluate_final_combi (other summation order: equal up to rounding
+    relative to the size of the summands) -- and the last reported error is the deviation of THAT returned result from the reference"""
+    import numpy as np
+    returned = [float(x) for x in np.atleast_1d(ret[3])]
+    if not cfg.get("reeval"):
+        if returned != last_result:
+            viol(prefix + "result-not-last-evaluation", {"returned": returned, "at_last_evaluation": last_result})
+        return
+    size = max([abs(x) for x in returned + last_result] + [0.0])
+    if not hasattr(sa.refinement, "refinementContainers"):
+        size += sum(float(np.sum(np.abs(np.atleast_1d(o.value)))) for o in sa.refinement.get_objects() if o.value is not None)
+    if len(returned) != len(last_result) or any(abs(a - b) > 1e-10 * size for a, b in zip(returned, last_result)):
+        viol(prefix + "result-not-last-evaluation", {"returned_after_reevaluation": returned, "at_last_evaluation": last_result,
+                                                     "size_of_the_summands": size})
+        return
+    if ref is not None:
+        ex = error_formula(cfg["norm"], ref, returned)
+        nz = [abs(float(r)) for r in ref if float(r) != 0.0]
+        unit = error_unit(ref, returned) + (size / min(nz) if nz and len(nz) == len(ref) else size)
+        if not same_error(cfg["norm"], float(last_error), ex, unit):
+            viol(prefix + "error-vs-returned-result", {"reported_error": float(last_error),
+                                                       "deviation_of_returned_result": None if ex is None else float(ex),
+                                                       "returned": returned, "reference": [float(x) for x in ref]})
+
+
 def check_run(ctx, drv, cfg, limits, scout_stream=None, tag_extra=None, prior=None, then=None):
     """run cfg with limits on the implementation, compare with the model, evaluate the oracle.
     returns (ok, observed stream or None)"""
@@ -423,7 +460,8 @@ def check_run(ctx, drv, cfg, limits, scout_stream=None, tag_extra=None, prior=No
     rclass = ref_class(reference_of(cfg, make_f(cfg)))
     tags = {"strategy": cfg["strategy"], "ref": rclass, "norm": cfg["norm"], "dim": cfg["dim"],
             "outputs": len(cfg["coeffs"]), "scale": cfg.get("scale", 1.0), "cache": cfg.get("cache", True),
-            "grid": cfg.get("grid", "default"), "recalc": cfg.get("recalc"), "evaluation_points": bool(cfg.get("eval_points"))}
+            "grid": cfg.get("grid", "default"), "recalc": cfg.get("recalc"), "evaluation_points": bool(cfg.get("eval_points")),
+            "reevaluate_at_end": bool(cfg.get("reeval"))}
     ctx.count("refclass_" + rclass)
     tags["history"] = prior["kind"] if prior else "fresh"
     if tag_extra:
@@ -513,9 +551,8 @@ def check_run(ctx, drv, cfg, limits, scout_stream=None, tag_extra=None, prior=No
     # reported error = deviation of the reported result from the reference
     import numpy as np
     ref = reference_of(cfg, out["f"])
-    final_result = [float(x) for x in np.atleast_1d(ret[3])]
-    if n and not runaway and final_result != evals[-1]["result"]:
-        viol("result-not-last-evaluation", {"returned": final_result, "at_last_evaluation": evals[-1]["result"]})
+    if n and not runaway:
+        returned_result_clause(viol, cfg, sa, ret, evals[-1]["result"], stream[-1][0], ref)
     if ref is not None:
         for i, ev in enumerate(evals[:n]):
             ex = error_formula(cfg["norm"], ref, ev["result"])
@@ -665,9 +702,11 @@ def second_call(ctx, drv, cfg, L1, then, out, stream1, scout_stream, viol, corr)
                                                 "deviation_from_reference": None if ex is None else float(ex)})
                 ok = False
                 break
-    if n2 and [float(x) for x in np.atleast_1d(ret[3])] != evals2[-1]["result"]:
-        viol("continue-result-not-last-evaluation", {"returned": [float(x) for x in np.atleast_1d(ret[3])], "at_last_evaluation": evals2[-1]["result"]})
-        ok = False
+    if n2:
+        flag = []
+        returned_result_clause(lambda pr, d: (flag.append(1), viol(pr, d)), cfg, sa, ret, evals2[-1]["result"], stream2[-1][0], ref,
+                               prefix="continue-")
+        ok = ok and not flag
     # ---- model: the stop rule of the second call takes the limits of THAT call
     own = parse_stop(drv.ask("run %s %s" % (lim_str(L2), stream_str(stream2))))
     corr("continue-stop-on-own-stream", n2 - 1, None if own is None else own["i"])
@@ -683,7 +722,12 @@ def second_call(ctx, drv, cfg, L1, then, out, stream1, scout_stream, viol, corr)
                                                                        p2["lens"][0], p2["lens"][1], p2["lens"][2])
         corr("two-call-run", impl, mdl)
         ctx.count("two_call_model_runs")
-    if scout_stream is not None and len(scout_stream) >= n1:
+    if cfg.get("reeval") and cfg["strategy"] == "extend_split":
+        # the first call ended with evaluate_final_combi(): the incremental result of extend-split was replaced by a recomputed one
+        # (other summation order), the errors of the second call differ from the scout's in the last bits and the redrawn
+        # tolerance lies exactly on a scout error -- no prediction from the scout stream (numerics policy, DESIGN 2.4)
+        ctx.count("ambiguous_float_scout_prediction_skipped")
+    elif scout_stream is not None and len(scout_stream) >= n1:
         # prediction from the scout stream: the second call sees the scout's observations from the interruption index on
         pred = parse_stop(drv.ask("run %s %s" % (lim_str(L2), stream_str(scout_stream[n1 - 1:]))))
         if pred is not None:
@@ -715,6 +759,8 @@ def gen_cfg(rng, thorough, strategy=None):
         cfg["grid"] = rng.choice(["trapezoidal", "trapezoidal", "trapezoidal", "gauss_legendre", "gauss_legendre", "clenshaw_curtis"])
     # recalculate_frequently=True with the threshold lowered to 1-3 refined objects: refine() re-evaluates everything
     cfg["recalc"] = rng.choice([None, None, None, 1, 2, 3])
+    # reevaluate_at_end=True: the returned result is recomputed from scratch by evaluate_final_combi() after the loop
+    cfg["reeval"] = rng.random() < 0.25
     # the rarely used option evaluation_points: the loop interpolates at these points after every evaluation and returns two
     # more history arrays (interpolation errors in the 2- and the max-norm)
     # (not on the Gauss-Legendre grid: it has no boundary points and the d-linear interpolation of the code does not extrapolate)
@@ -759,6 +805,7 @@ def run(ctx):
                 "a scout run (tol=-1) gives the stream, limits (tol,min,max) are then put exactly on its boundaries incl. limits met at the first "
                 "evaluation; in 40 % of the runs the same strategy object / the same Integration operation with a new strategy object / the same Function "
                 "object with a new operation (same or other strategy) has already driven a complete run (counters of the harness reset per run); "
+                "25 % of the configurations run with reevaluate_at_end=True (returned result recomputed; the reported error must be its deviation), "
                 "25 % of the configurations pass evaluation_points (two more history arrays); 40 % of the runs are followed by "
                 "continue_adaptive_refinement with redrawn limits (tighter or looser tol, other min/max), judged by the limits of that call; "
                 "the model must predict stop index / evaluations / refinements / array lengths from the scout stream; a case is one "
@@ -766,7 +813,7 @@ def run(ctx):
     drv = ctx.driver("drv_c13")
     import_ok = _classes()
     assert import_ok
-    budget = 85 if not thorough else 560
+    budget = 70 if not thorough else 560
     n_cfg = 110 if not thorough else 1500
     per_cfg = 4 if not thorough else 6
     # malformed / degenerate lines of the protocol never produce a default
@@ -786,7 +833,7 @@ def run(ctx):
         ctx.count("strategy_" + cfg["strategy"]); ctx.count("ref_" + cfg["ref"]); ctx.count("norm_" + cfg["norm"])
         ctx.count("dim_%d" % cfg["dim"]); ctx.count("outputs_%d" % len(cfg["coeffs"]))
         ctx.count("grid_" + cfg.get("grid", "trapezoidal" if cfg["strategy"] == "extend_split" else "global_trapezoidal")); ctx.count("recalc_%s" % cfg.get("recalc"))
-        ctx.count("evaluation_points_%s" % bool(cfg.get("eval_points")))
+        ctx.count("evaluation_points_%s" % bool(cfg.get("eval_points"))); ctx.count("reevaluate_at_end_%s" % bool(cfg.get("reeval")))
         ctx.count("scale_" + ("1" if cfg["scale"] == 1.0 else ("tiny" if cfg["scale"] < 1 else "huge"))); ctx.count("cache_%s" % cfg["cache"])
         ctx.case({"cfg": cfg, "limits": scout_limits}, nontrivial=bool(stream and len(stream) > 1),
                  sample={"cfg": cfg, "limits": scout_limits, "points": [x[1] for x in (stream or [])]} if k < 2 else None)
